@@ -1173,7 +1173,40 @@ def c15_4(rep, ix, M):
         raise Inconclusive("serialize: tdm variable section not recognised")
     loops = [n for n in ast.walk(sec[0]) if isinstance(n, ast.For) and u(n.iter) in ("self._var.items()", "self.variables.items()")]
     if len(loops) != 1:
-        raise Inconclusive("serialize: loop over the variables not recognised")
+        # the declarations may be written from a local list of (name, value) pairs: every pair must be a pair of the variable table itself
+        # (selected or reordered, but under the stored name)
+        cands = [n for n in ast.walk(sec[0]) if isinstance(n, ast.For) and isinstance(n.iter, ast.Name) and isinstance(n.target, ast.Tuple) and len(n.target.elts) == 2
+                 and any(isinstance(c, ast.Call) and u(c.func) == "script.append" for c in ast.walk(n))]
+        if len(cands) == 1:
+            L_ = cands[0].iter.id
+            contrib = [n for n in ast.walk(sec[0]) if (isinstance(n, ast.Assign) and any(isinstance(t_, ast.Name) and t_.id == L_ for t_ in n.targets))
+                       or (isinstance(n, ast.AugAssign) and isinstance(n.target, ast.Name) and n.target.id == L_)]
+            undecided = False
+            for c_ in contrib:
+                v_ = c_.value
+                while isinstance(v_, ast.Call) and u(v_.func) in ("list", "sorted", "tuple") and v_.args:
+                    v_ = v_.args[0]
+                if u(v_) in ("self._var.items()", "self.variables.items()"):
+                    continue
+                if isinstance(v_, (ast.ListComp, ast.GeneratorExp)) and isinstance(v_.elt, ast.Tuple) and len(v_.elt.elts) == 2:
+                    g_ = v_.generators[0]
+                    from_table = u(g_.iter) in ("self._var.items()", "self.variables.items()") and isinstance(g_.target, ast.Tuple) and len(g_.target.elts) == 2
+                    key_e = v_.elt.elts[0]
+                    if from_table and isinstance(key_e, ast.Name) and key_e.id == u(g_.target.elts[0]) and len(v_.generators) == 1:
+                        continue
+                    if not (isinstance(key_e, ast.Name)):
+                        rep.bad(R, ix.site(f, c_), "every variable of a tdm program is declared under the name it is stored under",
+                                "`%s`: the declared name is computed (`%s`), not the stored name - two spellings of one number (p1 / p01) collapse and the operations still refer to the stored name"
+                                % (" ".join(u(c_).split())[:60], " ".join(u(key_e).split())[:40]), key="tdm|name|" + " ".join(u(key_e).split())[:40])
+                        continue
+                undecided = True
+            refuted = any(o.rule == R and o.status == "refuted" and str(o.key).startswith("tdm|name|") for o in rep.obs)
+            if contrib and not undecided and refuted:
+                return
+            if contrib and not undecided:
+                loops = [cands[0]]
+        if len(loops) != 1:
+            raise Inconclusive("serialize: loop over the variables not recognised")
     lp = loops[0]
     k, v = u(lp.target.elts[0]), u(lp.target.elts[1])
     tdm_dispatch(rep, R, ix, f, lp, v)
